@@ -104,15 +104,40 @@ func hookSource(op *eng.Op, so eng.StepObs, prev []eng.LedgerRow, decl func(char
 		}
 		for _, r := range prev {
 			if r.Rev == tv {
-				return withDeclared(r.Hooks, decl(r.ChartID))
+				all, _ := declaredHooks(r.Hooks, decl(r.ChartID))
+				return all
 			}
 		}
 	case "uninstall":
 		// a release that is already uninstalled has nothing left to delete: only its history is removed
 		if len(prev) > 0 && prev[len(prev)-1].Status != "uninstalled" {
 			last := prev[len(prev)-1]
-			return withDeclared(last.Hooks, decl(last.ChartID))
+			all, _ := declaredHooks(last.Hooks, decl(last.ChartID))
+			return all
 		}
+	case "test":
+		// helm test runs the test hooks of the last revision that the name filters select
+		if len(prev) == 0 {
+			return nil
+		}
+		last := prev[len(prev)-1]
+		all, _ := declaredHooks(last.Hooks, decl(last.ChartID))
+		in := func(l []string, n string) bool {
+			for _, x := range l {
+				if x == n {
+					return true
+				}
+			}
+			return false
+		}
+		var out []eng.Hook
+		for _, h := range all {
+			if in(op.TestExclude, h.Res.Name) || (len(op.TestInclude) > 0 && !in(op.TestInclude, h.Res.Name)) {
+				continue
+			}
+			out = append(out, h)
+		}
+		return out
 	}
 	return nil
 }
@@ -346,6 +371,20 @@ func c12OracleStep(i int, op *eng.Op, so eng.StepObs, reqs []sim.Req, prev []eng
 			policyCheck(fmt.Sprintf("stored revision %d", row.Rev), row.Hooks, d)
 		}
 	}
+	// every stored revision keeps the hooks its chart declares (whatever ran in between, e.g. a filtered helm test):
+	// the next operation on it selects its hooks from the stored record
+	for _, row := range so.Ledger {
+		if d := decl(row.ChartID); d != nil {
+			if _, lost := declaredHooks(row.Hooks, d); len(lost) > 0 {
+				var ks []string
+				for _, x := range lost {
+					ks = append(ks, fmt.Sprintf("%s %v", x.Res.Key(), x.Events))
+				}
+				add("C12:stored-hooks-lost", fmt.Sprintf("after this operation the stored revision %d has %d hooks; the chart declares also %s - a later operation on the release will not run them", row.Rev, len(row.Hooks), strings.Join(ks, ", ")))
+				break
+			}
+		}
+	}
 	for _, row := range so.Ledger {
 		for _, r := range row.Manifest {
 			if isHookKeyName(r.Key()) {
@@ -408,6 +447,24 @@ func c12OracleStep(i int, op *eng.Op, so eng.StepObs, reqs []sim.Req, prev []eng
 	if op.HFault != nil {
 		a := *op.HFault
 		w.arm = &a
+	}
+	if op.Kind == "test" {
+		// helm test: the selected test hooks in order, nothing else; no resource of the release is touched
+		if len(mmuts) > 0 {
+			q := reqs[mmuts[0]]
+			add("C12:manifest-touched-by-test", fmt.Sprintf("helm test sent %s %s", q.Method, q.Key))
+		}
+		ok, _, _ := w.phase(src, "test")
+		if w.broken {
+			return
+		}
+		if !ok && so.Outcome == "ok" {
+			add("C12:test-hook-failure-not-reported", "a test hook failed and helm test reports success")
+		}
+		if w.pos < len(w.reqs) {
+			add("C12:unexpected-hook-request", "after the test hooks: "+w.show())
+		}
+		return
 	}
 	preOK, _, preLast := w.phase(src, ev[0])
 	if w.broken {
